@@ -490,7 +490,9 @@ def build_fc(pym, dom, n, modes, weights=None, radius=None, rel=True, ovr=None):
     kw = dict(zip(SIDES, modes))
     sx = pym.Signal('x', np.zeros(n))
     if weights is not None:
-        m = pym.FilterConv(sx, domain=dom, weights=weights, **kw)
+        wuser = weights.copy()
+        m = pym.FilterConv(sx, domain=dom, weights=wuser, **kw)
+        wuser[...] = 0          # the kernel array is the caller's scratch array: re-used after the filter has been built
     else:
         m = pym.FilterConv(sx, domain=dom, radius=radius, relative_units=rel, **kw)
     for index, _, value in (ovr or []):
